@@ -335,7 +335,10 @@ class Program:
             if tot["fs"]:
                 inlined = inlined + [f"forward-substituted {tot['fs']} adjacent single-use temporaries / bool() tests"]
             from .normalize import expand_search_idioms, unroll_table_loops
+            from .normalize import _build_conditional_dicts, _split_conditional_receivers
 
+            _split_conditional_receivers(tree)
+            _build_conditional_dicts(tree)
             n_se = expand_search_idioms(tree)
             if n_se:
                 inlined = inlined + [f"expanded {n_se} next()/any()/all() search idiom(s) into loops"]
